@@ -128,19 +128,25 @@ def dec(fr):
 class Counter(object):
     """shared evaluation counter; raises at the fail_at-th evaluation (C17)"""
 
-    def __init__(self, fail_at=0):
+    def __init__(self, fail_at=0, exc=None):
         self.n = 0
         self.fail_at = fail_at
+        self.exc = exc or ProbeFault
         self.log = []
 
     def tick(self, tag, x):
         self.n += 1
         if self.fail_at and self.n == self.fail_at:
-            raise ProbeFault("injected failure at evaluation %d (%s at %r)" % (self.n, tag, x))
+            raise self.exc("injected failure at evaluation %d (%s at %r)" % (self.n, tag, x))
 
 
 class ProbeFault(ArithmeticError):
     pass
+
+
+# a user function may fail with any exception: the kinds below are what look-up tables, generators, dictionaries and arithmetic
+# raise (StopIteration and KeyError are also what iteration protocols and mappings use internally)
+FAULT_KINDS = (ProbeFault, StopIteration, KeyError, ValueError, ZeroDivisionError, IndexError, OverflowError)
 
 
 class PyFn(object):
@@ -417,8 +423,17 @@ def execute(ctx, route, fail_at=0, spelling=None, workdir=None, bad=None, preexi
     res = dict(outcome="ok", exc=None, data=None, evals=0, writes=0, route=route)
     try:
         if route in ("class", "wp", "func"):
-            make_writer(ctx, route, counter)(sink)
+            w = make_writer(ctx, route, counter)
+            w(sink)
             res["data"] = sink.value()
+            if route == "class" and not fail_at:
+                # the same tabulation object written a second time
+                sink2 = Sink(binary)
+                try:
+                    w(sink2)
+                    res["data2"] = sink2.value()
+                except Exception as e:
+                    res["data2"] = "raised %s: %s" % (type(e).__name__, str(e)[:160])
         elif route == "ini":
             text = render_ini(ctx, spelling, bad)
             res["ini"] = text
@@ -877,6 +892,18 @@ def _replay_one(job):
                     c = compare(ctx, route, res, _INDEX)
                     r["bad"] = c.bad
                     r["cells"] = c.cells
+                    if "data2" in res and not c.bad:
+                        d1, d2 = res["data"], res["data2"]
+                        if isinstance(d1, bytes) and isinstance(d2, bytes):       # workbooks: the container carries the time of writing (F03), the cells must agree
+                            try:
+                                same = {k: v["cols"] for k, v in formats.parse_xlsx(d1).items()} == {k: v["cols"] for k, v in formats.parse_xlsx(d2).items()}
+                            except Exception as e:
+                                same, d2 = False, "unreadable workbook: %s" % e
+                        else:
+                            same = d1 == d2
+                        if not same:
+                            r["bad"] = [("second-write", "write() called a second time on the same tabulation object %s" % (
+                                d2[:120] if isinstance(d2, str) and d2.startswith(("raised", "unreadable")) else "gives a different table than the first time"))]
                 if r["bad"]:
                     r["ini"] = res.get("ini")
             except Exception as e:      # harness failure, not a verdict
@@ -1081,7 +1108,7 @@ def _fault_one(idx):
             N = counter.n
             out["n_measured"][route] = N
             for k in range(1, N + 1):
-                counter = Counter(k)
+                counter = Counter(k, FAULT_KINDS[(idx + k) % len(FAULT_KINDS)])
                 w = make_writer(ctx, route, counter)
                 sink = Sink(binary)
                 raised = False
@@ -1092,7 +1119,7 @@ def _fault_one(idx):
                 out["runs"] += 1
                 out["ks"] += 1
                 if not raised:
-                    bad(route, "fault-swallowed", "evaluation %d of %d raised but write() returned normally" % (k, N))
+                    bad(route, "fault-swallowed", "evaluation %d of %d raised %s but write() returned normally" % (k, N, counter.exc.__name__))
                 if sink.value():
                     bad(route, "partial-output", "evaluation %d of %d failed and %d characters in %d write(s) had already reached the file object" % (
                         k, N, len(sink.value()), len(sink.writes)), dict(k=k, N=N))
